@@ -125,7 +125,8 @@ Definition resolve_qn (m : nsm) (q : qname) : option (nsm * qname) :=
                | None => None
                end
       | None =>
-          Some (mkNsm (tbl m) (regd m) (Some n) (urimap m) (renmap m) (prenmap m), q)
+          (* adopted: self._default = namespace; self[""] = namespace (as repaired) *)
+          Some (mkNsm (dset "" n (tbl m)) (regd m) (Some n) (urimap m) (renmap m) (prenmap m), q)
       end
   | p =>
       match lookup p (tbl m) with
